@@ -561,16 +561,19 @@ pub fn random_abstract(rng: &mut Rng, size: usize, break_links: bool) -> Value {
     let tilts = ["TOP", "SIDE", "SIDE", "SIDE", "BOTTOM"];
     let orients = ["N", "NE", "E", "SE", "S", "SW", "W", "NW"];
     let used_sps = &sps[..nsp]; // the last space is never used by a wall (purge must remove it)
+    // a building wholly enclosed by others (nothing exposed to outside air or ground), now and then
+    let enclosed = rng.chance(1, 12);
     for &s in used_sps {
         // one floor per space so that it has an area
         let fid = next();
         walls.push(json!({"id": fid, "space": s, "cons": brkp(rng, &wcs[..nwc]), "next": -1,
-            "bounds": if rng.chance(1, 2) { "GROUND" } else { "EXTERIOR" }, "tilt": "BOTTOM", "orient": "S",
+            // (now and then a floor over another building: with nothing else exposed the envelope has no exposed area)
+            "bounds": if enclosed || rng.chance(1, 8) { "ADIABATIC" } else if rng.chance(1, 2) { "GROUND" } else { "EXTERIOR" }, "tilt": "BOTTOM", "orient": "S",
             "area": 2500 * if rng.chance(1, 8) { rng.range(1, 4) } else { rng.range(8, 60) }}));
         let nw = 1 + rng.below(size.min(5));
         for _ in 0..nw {
             let wid = next();
-            let b = *rng.pick(&bounds);
+            let b = if enclosed { *rng.pick(&["INTERIOR", "ADIABATIC"]) } else { *rng.pick(&bounds) };
             let nextsp = if b == "INTERIOR" && rng.chance(3, 4) { brkp(rng, used_sps) } else { -1 };
             let area = 2500 * rng.range(4, 80);
             walls.push(json!({"id": wid, "space": brk(rng, s), "cons": brkp(rng, &wcs[..nwc]), "next": nextsp,
